@@ -50,3 +50,12 @@ check("C04", "exploration", "small-scope exhaustive enumeration of transform con
       "Every transform class and every on/off combination inside CompositeTransform/FlowTransform (periodic subset x bounded_to_unbounded x logit|probit x affine), plus FlowPreconditioningTransform with a zuko flow, is run on a Latin arrangement of interior positions down to the clipping margin for bounds over 9 orders of magnitude, d=1..3, batch 1/3/7, three namespaces and two float widths: round trip, forward log-Jacobian vs the analytic value and vs slogdet of the central-difference Jacobian, inverse log-Jacobian = -forward, fit == forward-after-fit; periodic wrapping is run on 18 special reals per interval (bounds, bound -+ 1e-20, +-kP, +-1e12) and must land in [lower, upper), congruent mod P, with zero log-Jacobian.",
       "Finite alphabets; tolerance = 8 x sensitivity of the reference to one ulp of the unit-interval coordinate in the dtype under test + absolute floor; finite differences in float64 only.",
       "DESIGN.md 4/C04")
+
+check("C16", "model_checking", "explicit-state breadth-first search over operation sequences on real sample-set objects against a plain reference model (canonical abstract states, one-step bisimulation check)",
+      "From every start object (3 classes x 3 namespaces x 2 dtypes x 8 optional-field subsets, 4 value-tagged rows) BFS explores every sequence of {int index, slices, boolean masks, index arrays with repeats/reordering, partition+concatenate at each cut, pickle round trip, to_dict->from_dict flat/nested} to depth 3 (quick) / 4 (thorough); in every reached state every per-row field (incl. log_w and weights), class, namespace, dtype, parameters, temperature and the carried evidence are compared with the reference model; states merged by the abstraction are validated by recomputing all one-step successors from the second history.",
+      "Rows identified by values; int selection is terminal (1-D row); operations producing empty sets are outside the alphabet.",
+      "DESIGN.md 4/C16", engine="bfs")
+check("C19", "model_checking", "explicit-state breadth-first search over context nestings, body operations and injected exceptions on a real Aspire instance (ExitStack-driven), with a one-step bisimulation check of the abstraction",
+      "BFS over all action sequences of {enter one of 4 context configurations, leave the innermost context, run a real importance-sampling call in the body, raise an Exception subclass, raise KeyboardInterrupt} up to nesting depth 3/4 and 6/7 actions: at every exit (normal or by exception) likelihood and prior (object identity) and the checkpoint defaults (identity and content) must equal what they were at the matching entry, after a full unwind the pre-entry state (attribute absent if it was absent), each pool closed and joined exactly once iff asked, overrides really active while inside, the injected exception propagates unchanged.",
+      "ExitStack == nested with-statements; FakePool; faults between body operations, not inside __enter__/__exit__.",
+      "DESIGN.md 4/C19", engine="bfs")
